@@ -32,7 +32,7 @@ PROFILES = {
     "C17": dict(mc=[("FIzero", 2, 2, 1)], mc_thorough=[("FIzero", 2, 3, 1), ("FIfix", 2, 2, 2), ("FIzero", 3, 2, 1)],
                 gen=dict(nops=14, trees=["FI3", "FI4", "FIN"], fund_subs=False), n=(240, 4000), lazy=0.0),
     "C16": dict(mc=[("F2zero", 2, 2, 2)], mc_thorough=[("F2zero", 2, 3, 2), ("N1zero", 2, 2, 2), ("F2fix", 2, 2, 2), ("F2zero", 3, 2, 2)],
-                gen=dict(nops=12, crash=True, leverage=True, mix=[{}, {}, {"comm": "gouge"}]), n=(240, 4000), lazy=0.0),
+                gen=dict(nops=12, crash=True, leverage=True, mix=[{}, {}, {"comm": "gouge"}, {"trees": ["MC3", "MC3", "MCN"], "brink": 0.35, "crash": False, "leverage": False, "nops": 16, "flatpx": True, "comm": "zero", "spread": 0}]), n=(240, 4000), lazy=0.0),
 }
 
 MC_INVARIANTS = """INVARIANT NoOverflow
@@ -128,7 +128,7 @@ def _run_one_fast(args):
         kw = dict(kw)
         mix = kw.pop("mix")
         kw.update(mix[idx % len(mix)])
-    ckw = {k: v for k, v in kw.items() if k in ("tree", "T", "comm", "spread", "integer", "late", "crash", "D", "delist", "zerodip", "penny")}
+    ckw = {k: v for k, v in kw.items() if k in ("tree", "T", "comm", "spread", "integer", "late", "crash", "D", "delist", "zerodip", "penny", "flatpx")}
     gkw = {k: v for k, v in kw.items() if k in treegen.GEN_KEYS}
     if "trees" in kw:
         ckw["tree"] = rng.choice(kw["trees"])
